@@ -4,7 +4,7 @@ import os
 import shutil
 from harness import drive_persist, gen_cc, gen_proc, gen_graph, tlc
 from harness.gd import empty, node
-from harness.runner import pmap, CACHE
+from harness.runner import first_per_clause, pmap, CACHE
 
 
 def two_choice_graph():
@@ -107,10 +107,12 @@ def run(ctx):
             out['ops'][e['op'] + ('/skipped' if e['skipped'] else '')] += 1
         v = mon['verdicts'][t['tid']]
         if v[2]:
+            keep_it = False
             for c in {f[0] for f in v[2]}:
                 out['clause_counts'][c] += 1
-            if len(out['fails']) < 80:
-                out['fails'].append({'tid': t['tid'], 'fails': v[2][:8], 'g': t['g'], 'hist': t['hist']})
+                keep_it = keep_it or out['clause_counts'][c] <= 40        # up to 40 failing traces are kept per clause
+            if keep_it:
+                out['fails'].append({'tid': t['tid'], 'fails': first_per_clause(v[2]), 'g': t['g'], 'hist': t['hist']})
     for t in traces[3:5]:
         out['samples'].append({'history': t['hist'], 'objects_after_each_step': [len(e['obs']) for e in t['ev']],
                                'last_observation_of_object_1': {k: t['ev'][-1]['obs'][0][k] for k in ('nodes', 'feasible', 'final', 'next', 'degs', 'dvv')}})
